@@ -29,12 +29,17 @@ pub struct SsCase {
     /// initialised at rest); None: equal to v0
     #[serde(default)]
     pub init_speed: Option<f64>,
+    /// explicit initial front offset = train length + this many metres (a run that starts part-way along its route);
+    /// None: the default start (front one train length into the path)
+    #[serde(default)]
+    pub init_extra: Option<f64>,
     /// letters: accel index * 3 + dt index; 100 + k = "negative speed" probe (C14)
     pub path: Vec<usize>,
 }
 
 pub fn build_sim(nets: &[(String, Network)], c: &SsCase) -> Result<SetSpeedTrainSim, String> {
-    let b = builder(&c.train, None, Some(InitTrainState::new(Some(0.0 * uc::S), None, Some(c.init_speed.unwrap_or(c.v0) * uc::MPS))), Some(1));
+    let off = c.init_extra.map(|x| (train_ref(&c.train).length + x) * uc::M);
+    let b = builder(&c.train, None, Some(InitTrainState::new(Some(0.0 * uc::S), off, Some(c.init_speed.unwrap_or(c.v0) * uc::MPS))), Some(1));
     let route: Vec<_> = c.route.iter().map(|&i| lidx(i)).collect();
     let trace = SpeedTrace::new(vec![0.0], vec![c.v0], None);
     b.make_set_speed_train_sim(&nets[c.net].1, &route, trace, Some(1)).map_err(|e| format!("{e:#}"))
@@ -324,15 +329,19 @@ pub fn explore(ctx: &mut Ctx, which: &'static str) {
     let (full_d, dev1, dev2) = bounds(ctx.tier);
     let n_letters = 9usize;
     for (ci, (net, route, train)) in combos(&nets, ctx.tier).into_iter().enumerate() {
-        for (v0, init_speed) in [(12.0, None), (0.0, None), (12.0, Some(0.0))] {
+        for (v0, init_speed, init_extra) in [(12.0, None, None), (0.0, None, None), (12.0, Some(0.0), None), (12.0, None, Some(137.5f64))] {
             if init_speed.is_some() && which != "C14" && which != "C11" {
+                continue;
+            }
+            // a start part-way along the route concerns the position bookkeeping (C12) and the geometry under the train (C07)
+            if init_extra.is_some() && which != "C12" && which != "C07" {
                 continue;
             }
             for first in 0..n_letters {
                 if !ctx.claim() {
                     continue;
                 }
-                let base = SsCase { net, route: route.clone(), train, v0, init_speed, path: vec![] };
+                let base = SsCase { net, route: route.clone(), train, v0, init_speed, init_extra, path: vec![] };
                 let root = match build_sim(&nets, &base) {
                     Ok(s) => s,
                     Err(e) => {
@@ -342,6 +351,17 @@ pub fn explore(ctx: &mut Ctx, which: &'static str) {
                 };
                 let r = refs(&nets, &base);
                 ctx.state();
+                if which == "C12" && first == 0 {
+                    // the initial state (saved as step 0 by walk()) already obeys the bookkeeping
+                    let st = &root.state;
+                    ctx.checks(2);
+                    if !close_tol(st.offset_back.value, st.offset.value - st.length.value, 1e-12, 1e-9) {
+                        ctx.violation("initial-rear-position-not-front-minus-length@TrainState::new:set-speed", format!("offset_back {} but offset {} - length {}", st.offset_back.value, st.offset.value, st.length.value), serde_json::to_value(&base).unwrap(), 0);
+                    }
+                    if st.total_dist.value != 0.0 {
+                        ctx.violation("initial-total-distance-not-zero@TrainState::new:set-speed", format!("total_dist {} before the first step", st.total_dist.value), serde_json::to_value(&base).unwrap(), 0);
+                    }
+                }
                 if first == 0 {
                     ctx.sample(|| serde_json::to_value(&base).unwrap());
                 }
@@ -363,7 +383,7 @@ pub fn explore(ctx: &mut Ctx, which: &'static str) {
                         }
                         ctx.transition();
                         ctx.depth(path.len() as u64);
-                        let mk = |path: &[usize]| SsCase { net, route: route.clone(), train, v0, init_speed, path: path.to_vec() };
+                        let mk = |path: &[usize]| SsCase { net, route: route.clone(), train, v0, init_speed, init_extra, path: path.to_vec() };
                         if so.panicked {
                             ctx.violation(&format!("panic@SetSpeedTrainSim::step:{which}"), so.err.chars().take(300).collect(), serde_json::to_value(mk(path)).unwrap(), path.len() as u64);
                             return None;
@@ -410,7 +430,7 @@ pub fn explore(ctx: &mut Ctx, which: &'static str) {
                         if so.accepted || so.panicked {
                             let mut p: Vec<usize> = vec![0; pos];
                             p.push(100);
-                            ctx.violation("negative-speed-accepted@SetSpeedTrainSim::solve_step:set-speed", format!("a trace point with speed -0.5 m/s at position {} was {}", pos + 1, if so.panicked { "a panic" } else { "accepted" }), serde_json::to_value(SsCase { net, route: route.clone(), train, v0, init_speed, path: p }).unwrap(), pos as u64);
+                            ctx.violation("negative-speed-accepted@SetSpeedTrainSim::solve_step:set-speed", format!("a trace point with speed -0.5 m/s at position {} was {}", pos + 1, if so.panicked { "a panic" } else { "accepted" }), serde_json::to_value(SsCase { net, route: route.clone(), train, v0, init_speed, init_extra, path: p }).unwrap(), pos as u64);
                         } else {
                             ctx.sig("negative-speed-rejected");
                         }
@@ -446,7 +466,8 @@ pub fn run_case(nets: &[(String, Network)], c: &SsCase) -> Result<Vec<(SetSpeedT
 
 pub fn validate_walk(nets: &[(String, Network)], c: &SsCase, explored: &SetSpeedTrainSim) -> Result<(), String> {
     // the explored sim carries the complete trace; walk a fresh sim over it
-    let b = builder(&c.train, None, Some(InitTrainState::new(Some(0.0 * uc::S), None, Some(c.init_speed.unwrap_or(c.v0) * uc::MPS))), Some(1));
+    let off = c.init_extra.map(|x| (train_ref(&c.train).length + x) * uc::M);
+    let b = builder(&c.train, None, Some(InitTrainState::new(Some(0.0 * uc::S), off, Some(c.init_speed.unwrap_or(c.v0) * uc::MPS))), Some(1));
     let route: Vec<_> = c.route.iter().map(|&i| lidx(i)).collect();
     let mut fresh = b.make_set_speed_train_sim(&nets[c.net].1, &route, explored.speed_trace.clone(), Some(1)).map_err(|e| format!("{e:#}"))?;
     match guarded(|| fresh.walk()) {
@@ -472,6 +493,17 @@ pub fn replay(which: &str, case: &Value) -> ReplayOutcome {
     let r = refs(&nets, &c);
     let mut v = vec![];
     let mut obs = String::new();
+    if which == "C12" {
+        if let Ok(root) = build_sim(&nets, &c) {
+            let st = &root.state;
+            if !close_tol(st.offset_back.value, st.offset.value - st.length.value, 1e-12, 1e-9) {
+                v.push(("initial-rear-position-not-front-minus-length@TrainState::new:set-speed".to_string(), format!("offset_back {} but offset {} - length {}", st.offset_back.value, st.offset.value, st.length.value)));
+            }
+            if st.total_dist.value != 0.0 {
+                v.push(("initial-total-distance-not-zero@TrainState::new:set-speed".to_string(), format!("total_dist {} before the first step", st.total_dist.value)));
+            }
+        }
+    }
     match run_case(&nets, &c) {
         Err(e) => v.push(("valid-train-rejected@TrainSimBuilder::make_set_speed_train_sim".to_string(), e)),
         Ok(steps) => {
